@@ -226,6 +226,23 @@ def run_plain(rt, fr):
     raise HarnessFault("plain-style node yielded")
 
 
+def mark_received(got, tag, depth=0):
+    t = type(got)
+    if t is list:
+        if depth < 2:
+            for x in got:
+                mark_received(x, tag, depth + 1)
+        got.append(("seen-by", tag))
+    elif t is dict:
+        if depth < 2:
+            for x in list(got.values()):
+                mark_received(x, tag, depth + 1)
+        got[("seen-by",)] = tag
+    elif t is tuple and depth < 2:
+        for x in got:
+            mark_received(x, tag, depth + 1)
+
+
 def exec_block(rt, fr, block):
     for st in block:
         op = st[0]
@@ -255,6 +272,9 @@ def exec_block(rt, fr, block):
                 else:
                     rt.ev_resume(fr, k, leaves, got)
                     rt.check_unchanged(fr, k, obj, snap)
+                    # what a yield hands back belongs to the program: it may modify it (here: leave a mark in every
+                    # list / dict it received) without that showing up anywhere else
+                    mark_received(got, (fr.path, k))
                     fr.received.append(("got", got))
         elif op == "sync":
             v = rt.sync_call(fr, st)
